@@ -50,15 +50,15 @@ PENDING = {
 }
 # properties whose numerical source is additionally regenerated into Lean by the kernel translator (DESIGN 9.5b/9.5c)
 TIE = {
- 'C01': ('the GSE and APU parts of the source (emissions/gse.py, emissions/apu.py: every species, all four aircraft classes) are regenerated into Lean by the symbolic translator on every run and proved equal to the model (KernelBridge2), so the NOx/SOx splits and amount = index × fuel are also theorems about the source text (src_gse_splits, src_apu_amount_eq_index_times_fuel, src_apu_splits)',
+ 'C01': ('the GSE and APU parts of the source (emissions/gse.py, emissions/apu.py: every species, all four aircraft classes) are regenerated into Lean by the symbolic translator on every run and proved equal to the model (KernelBridge2), so the NOx/SOx splits and amount = index × fuel are also theorems about the source text (src_gse_splits, src_apu_amount_eq_index_times_fuel, src_apu_splits); the assembly itself is regenerated as vector kernels (third translator generation: per-segment fuel burn, the emission window of _trajectory_slice and the slice stores of get_trajectory_emissions, amounts = index × burn, windowed fuel sum, per-species total of sum_total_emissions, life-cycle term) and proved equal to the model (KernelBridge5), so segment = index × burn, every kilogram counted once and total = sum of parts are theorems about the source text for trajectories of every length (src_segment_eq_index_times_burn, src_segment_burn_telescopes, src_total_eq_sum_of_parts, src_assembly_is_model)',
          'translator harness/common/pykern.py (symbolic evaluation of the source AST), validated by executing the generated definitions next to the real functions'),
- 'C02': ('the altitude schedule of LegacyContext.__init__ and calc_starting_mass are regenerated into Lean from the source on every run and proved equal to the model (src_schedule_is_model, src_schedule_clamps, src_starting_mass_le_mtom, src_starting_mass_is_model)',
+ 'C02': ('the altitude schedule of LegacyContext.__init__ and calc_starting_mass are regenerated into Lean from the source on every run and proved equal to the model (src_schedule_is_model, src_schedule_clamps, src_starting_mass_le_mtom, src_starting_mass_is_model); ONE generic iteration of the level-change loop and of the cruise loop (legacy.py) is regenerated in loop mode (13 kernels) and proved equal to the step functions lvlNext / crzNext whose folds the flight theorems are about (KernelBridge3); mass − fuel invariance, the non-negative fuel clamp and monotone time / distance per iteration are theorems about the source text for every state (src_level_step_keeps_mass_minus_fuel, src_level_step_never_gains_fuel, src_cruise_step_monotone, src_level_step_is_model, src_cruise_step_is_model)',
          'translator harness/common/pykern.py, validated against real LegacyContext / LegacyBuilder objects'),
  'C12': ('the ISA functions, EI_SOx, FFM2, the BFFM2 humidity correction and regression evaluation, the NOx speciation percentages, the HC/CO ambient factor and the MEEM compressor chain are regenerated into Lean from the source on every run and proved equal to the model (KernelBridge), so the inverses, sulfur conservation, speciation sums etc. are also theorems about the source text (src_*); the two open findings are theorems of the form "the source is the as-is variant or the intended variant"',
          'translator harness/common/pykern.py, validated by executing the generated definitions next to the real functions (inputs and local variables captured from the live frames)'),
  'C16': ('the vector sum at the end of Weather.get_ground_speed and the ISA pressure function are regenerated into Lean from the source on every run; src_ground_speed_variant proves the source is the as-is or the intended decomposition and src_zero_wind_and_bounds holds for both',
          'translator harness/common/pykern.py, validated against a real Weather object'),
- 'C19': ('the thrust / fuel-flow / specific-ground-range methods of BADA/model.py (three engine classes, inheritance and engine dispatch resolved) are regenerated into Lean from the source on every run and proved equal to the model (KernelBridge: bada_thrust, bada_sgr, …), so thrust ≤ max, negative thrust replaced and the cruise factor are also theorems about the source text (src_*)',
+ 'C19': ('the thrust / fuel-flow / specific-ground-range methods of BADA/model.py (three engine classes, inheritance and engine dispatch resolved) are regenerated into Lean from the source on every run and proved equal to the model (KernelBridge: bada_thrust, bada_sgr, …), so thrust ≤ max, negative thrust replaced and the cruise factor are also theorems about the source text (src_*); the two cumulative-trapezoid mass updates of BADA/fuel_burn_base.py (array and scalar segment lengths) are regenerated as vector kernels and proved equal to massFwd / massBwd (KernelBridge4), so start / end mass, step decrease = trapezoid of its own segment and a never-increasing profile are theorems about the source text for arrays of every length (src_mass_update_forward, src_mass_update_backward, src_mass_update_scalar_dx, src_mass_update_nonincreasing)',
          'translator harness/common/pykern.py, validated by executing the generated definitions next to the real methods'),
  'C20': ('the ownership code of TrajectoryStore.__init__ (helpers inlined, early returns eliminated) is regenerated into a guard program on every run and mutual exclusion is re-proved for it by a kernel-checked invariant set',
          'guard translator harness/common/translator.py'),
